@@ -396,6 +396,63 @@ def part_keepfiles(ctx):
                                        ['keepfile_shape'])
 
 
+def run_rewritten(src, bodies, via, case):
+    """One process, one keep-file path, several runs: before each run the file is rewritten in place (same length,
+    timestamps put back, as `cp -p`, rsync -t or a save within one clock tick leave them).  Each run must honour the
+    file as it is at that moment."""
+    from pico8 import tool
+    with tempfile.TemporaryDirectory(prefix='c02r_') as td:
+        kf = os.path.join(td, 'keep.txt')
+        stamp = None
+        for step, body in enumerate(bodies):
+            with open(kf, 'wb') as fh:
+                fh.write(body)
+            if stamp is None:
+                st_ = os.stat(kf)
+                stamp = (st_.st_atime_ns, st_.st_mtime_ns)
+            else:
+                os.utime(kf, ns=stamp)
+            keep = parse_keep(body.replace(b'\r', b''))
+            c = dict(case, step=step)
+            if via == 'lib':
+                try:
+                    _l, out = c01.minify_lib([src], {'keep_names_from_file': kf})
+                except Exception as e:
+                    raise Violation('minifying raised %r -- %s' % (e, show(src, 160)), c, 'raises')
+                what = 'luamin (run %d on the same keep-file path)' % (step + 1)
+            else:
+                path = os.path.join(td, 'c.p8')
+                with open(path, 'wb') as fh:
+                    fh.write(reffmt.write_p8(8, src, bytes(0x4300)))
+                try:
+                    rc = tool.main(['luamin', '--keep-names-from-file', kf, path])
+                except Exception as e:
+                    raise Violation('`p8tool luamin` raised %r' % e, c, 'cli')
+                if rc != 0:
+                    raise Violation('`p8tool luamin` returned %r' % rc, c, 'cli')
+                out = reffmt.read_p8(open(os.path.join(td, 'c_fmt.p8'), 'rb').read())['code']
+                what = '`p8tool luamin` (run %d on the same keep-file path)' % (step + 1)
+            check_pairs(ident_pairs(src, out, c, what), 'keep_file', keep, c, what)
+
+
+def part_keepfile_history(ctx):
+    names = [b'alpha', b'gamma', b'omega', b'score', b'lives', b'x', b'y', b'zz'] + [b'filler%d' % i for i in range(30)]
+    src = b''.join(nm + b'=' + names[(i + 1) % len(names)] + b'\n' for i, nm in enumerate(names))
+    seqs = [[b'alpha\n', b'gamma\n'], [b'alpha\n', b'gamma\n', b'alpha\n'], [b'score\r\nx\r\n', b'lives\r\ny\r\n'],
+            [b'x', b'y', b'x'], [b'# k\nalpha\nscore\n', b'# k\nomega\nlives\n'], [b'alpha\n', b'alpha\n'],
+            [b'alpha\ngamma\n', b'omega\n#####\n']]
+    k = 0
+    for bodies in seqs:
+        for via in ('lib', 'luamin'):
+            k += 1
+            if k % ctx.nshards != ctx.shard:
+                continue
+            case = {'source': src, 'keep_history': bodies, 'via': via}
+            run_rewritten(src, bodies, via, case)
+            ctx.stats.case(b'kh' + b'|'.join(bodies) + via.encode(), True,
+                           {'keep_file_history': [show(b, 30) for b in bodies], 'via': via}, ['keepfile_rewritten_in_place'])
+
+
 def part_ids(ctx):
     """Every generated short-name id below N, observed through the public writer."""
     total = 20000 if ctx.quick else 300000
@@ -423,8 +480,10 @@ def part_ids(ctx):
 
 def parts(tier):
     if tier == 'quick':
-        return [('populations', part_populations, 10), ('ids', part_ids, 4), ('keepfiles', part_keepfiles, 2)]
-    return [('populations', part_populations, 11), ('ids', part_ids, 3), ('keepfiles', part_keepfiles, 2)]
+        return [('populations', part_populations, 10), ('ids', part_ids, 4), ('keepfiles', part_keepfiles, 2),
+                ('keepfile_history', part_keepfile_history, 1)]
+    return [('populations', part_populations, 11), ('ids', part_ids, 3), ('keepfiles', part_keepfiles, 1),
+            ('keepfile_history', part_keepfile_history, 1)]
 
 
 def replay(case):
@@ -435,6 +494,9 @@ def replay(case):
         _l, out = c01.minify_lib([src], {})
         check_pairs(ident_pairs(src, out, case, 'luamin'), 'default', set(), case, 'luamin')
         return
+    if 'keep_history' in case:
+        run_rewritten(case['source'], case['keep_history'], case.get('via', 'lib'), case)
+        return
     keep_body = case.get('keep', b'')
     run(case['source'], case.get('config', 'default'), keep_body, parse_keep(keep_body), case.get('via', 'lib'), case)
 
@@ -442,7 +504,7 @@ def replay(case):
 def vacuity(total, tier):
     msgs = []
     for lab in ('population>=27', 'population>=703', 'keepfile_has_would_be_id', 'uses_builtin', 'cfg_keep_all',
-                'via_luamin', 'via_build', 'via_luamin_two', 'keepfile_starts_with_glyph_name', 'keepfile_shape'):
+                'via_luamin', 'via_build', 'via_luamin_two', 'keepfile_starts_with_glyph_name', 'keepfile_shape', 'keepfile_rewritten_in_place'):
         if total.classes.get(lab, 0) < 2:
             msgs.append('class %s seen %d times' % (lab, total.classes.get(lab, 0)))
     return msgs
